@@ -39,7 +39,7 @@ def scenario(rng, i):
             if e['rel']['type'] == 'worm' and prev['type'] == 'wormgear':
                 a, b = GEN.qsi(prev['pa']), GEN.qsi(prev['helix'])
                 crit = math.cos(a) * math.tan(b)
-                e['rel']['f'] = rng.choice([crit, math.nextafter(crit, 2), math.nextafter(crit, 0)])
+                e['rel']['f'] = min(1.0, rng.choice([crit, math.nextafter(crit, 2), math.nextafter(crit, 0), crit * (1 - 1e-3), crit * (1 + 1e-3), crit * 0.98, crit * 1.02]))
     if m != 7 or rng.random() < 0.5:
         GEN.add_const_rules(rng, spec, n_rules=rng.randint(1, 5))
     if m in (2, 7) and rng.random() < 0.5:
